@@ -212,6 +212,19 @@ def summary(r):
     return (tuple((s[0], s[1], s[2]) for s in r['steps']), tuple((x[0], x[1]) for x in r['x'] if not x[1].endswith('tim') and x[1] != 'real-clock'), c[0] if c else None, stack_signature(r)[1:] if c else None)
 
 
+def harness_or_violation(prop, tier, make_harness):
+    """-> (harness, None), or (None, exit status) after reporting that wasi.c / the shim do not get through translator and compiler: on the
+    unchanged tree they do, so on a changed tree this is a finding about the tree, not a fault of the machinery"""
+    try:
+        return make_harness(), None
+    except RuntimeError as e:
+        chk = Check(prop, 'model_checking', tier)
+        chk.violation('pipeline|harness-build', {'kind': 'config', 'what': str(e)[-3000:], 'how_to_replay': 'bin/check %s quick' % prop},
+                      'wasi.c with the specification-signature shim does not get through the pipeline: %s' % str(e).strip().split('\n')[-1][:300])
+        chk.cov['exhaustive'] = False
+        return None, chk.finish()
+
+
 class Explorer:
     """bookkeeping common to all WASI checks: outcome statistics, violation reporting with replay-before-report"""
     def __init__(self, prop, tier, harness, mode, module):
